@@ -1,7 +1,8 @@
 """
 Run-time observer for `pytenet.krylov.lanczos_iteration` (no source change: the module attribute is wrapped
 while a check runs). It recognises the call-site signature of known finding F5: the iteration returned more
-vectors than the Krylov space of (A, v) has dimensions, i.e. it continued past an undetected breakdown.
+vectors than the Krylov space of (A, v) has dimensions, i.e. it continued past an undetected breakdown - or, the milder
+form of the same weakness, the vectors it returned are not orthonormal to 1e-9 (no re-orthogonalisation).
 
 The Krylov dimension is determined independently by an Arnoldi process with two passes of full
 re-orthogonalisation; a residual below 1e-9 x (largest ||A v|| seen) counts as exhaustion.
@@ -45,10 +46,14 @@ class LanczosMonitor:
             returned = len(out[0])
             if returned >= 2:
                 k = krylov_dimension(Afunc, np.array(vstart, copy=True), returned)
-                if returned > k:
+                # second form of the same signature: the returned "Lanczos vectors" are not orthonormal (orthogonality lost without
+                # re-orthogonalisation; beyond the Krylov dimension it is lost completely, close to it partially)
+                V = np.asarray(out[2])
+                orth = float(np.max(np.abs(V.conj().T @ V - np.identity(V.shape[1])))) if V.ndim == 2 and V.shape[1] == returned else 0.0
+                if returned > k or orth > 1e-9:
                     self.past_breakdown += 1
                     if len(self.details) < 3:
-                        self.details.append({'n': int(len(vstart)), 'numiter': int(numiter), 'returned': int(returned), 'krylov_dim': int(k)})
+                        self.details.append({'n': int(len(vstart)), 'numiter': int(numiter), 'returned': int(returned), 'krylov_dim': int(k), 'orth_err': orth})
             return out
         _K.lanczos_iteration = wrapped
         return self
